@@ -271,6 +271,7 @@ static void run_case(cs::Src& s, cs::Ctx& ctx) {
   } else {
     gen::Spell sp;
     sp.strict = s.coin();
+    sp.comments = ARDUINOJSON_ENABLE_COMMENTS;  // comments inside discarded parts have to be skipped too
     bytes = gen::spell_document(s, sp, v);
   }
   Val f = s.chance(5, 6) ? derive_filter(s, v, 0) : gen::gen_value(s, o);
